@@ -662,3 +662,92 @@ def value_snapping(ctx, repo, pid):
     if not bad:
         ctx.ok("FLOATTOL", f"{pid}.measure.snap", f"none of the {n_f} measure functions replaces a small result by a constant under a tolerance test",
                m.relpath)
+
+
+# ---------------------------------------------------------------------------------------------------------------------------
+# ONEPATTERN: one construction for the three pairwise matrices
+
+def one_construction(ctx, repo, pid):
+    """adjacency, borders and centre distances of a cell model share one sparsity pattern because ONE pair loop with ONE neighbour
+    criterion emits all three; the selected property only chooses the VALUE that is emitted.  A `_calculate_N_N_array` implementation
+    in which `sel_property` selects a different construction path (a branch at the top level of the routine that returns or builds
+    the matrix by another criterion) lets the patterns drift apart."""
+    m = repo.module(VO)
+    n_impl = 0
+    bad = []
+    for ci in m.classes.values():
+        fi = ci.methods.get("_calculate_N_N_array")
+        if fi is None or ci.name == "MikroVoronoi":
+            continue
+        n_impl += 1
+        ctx.analysed(fi)
+        for st in fi.node.body:
+            if not isinstance(st, ast.If):
+                continue
+            names = {n.id for n in ast.walk(st.test) if isinstance(n, ast.Name)}
+            if "sel_property" not in names:
+                continue
+            # both branches must end in the same construction: flag when one branch delegates / returns and the other builds its own triplets
+            def kind(block):
+                txt = " ".join(src(b) for b in block)
+                deleg = any(isinstance(x, ast.Return) and isinstance(x.value, ast.Call) and "_calculate_N_N_array" in src(x.value.func) for b in block for x in ast.walk(b))
+                return "delegates" if deleg else ("builds" if ("coo_array" in txt or "rows" in txt) else "other")
+            rest = fi.node.body[fi.node.body.index(st) + 1:]
+            k_body, k_else = kind(st.body), kind(st.orelse if st.orelse else rest)
+            if {k_body, k_else} == {"delegates", "builds"}:
+                bad.append((fi, st))
+    ctx.instance("MIRROR", max(1, n_impl))
+    for fi, st in bad:
+        ctx.violate("MIRROR", f"{pid}.one_construction", f"{fi.qualname}: the selected property decides HOW the matrix is built (one property takes a "
+                    "construction of its own, the others the shared pair loop): adjacency, borders and distances are no longer produced by one "
+                    "neighbour criterion and need not share one sparsity pattern", fi.where, "if " + src(st.test)[:120],
+                    witness="a top-level branch on sel_property separates a delegating path from a path that builds its own (rows, columns)")
+    if not bad:
+        ctx.ok("MIRROR", f"{pid}.one_construction", f"in all {n_impl} cell-model implementations the selected property only chooses the emitted value, "
+               "never the construction of the pattern", m.relpath)
+
+
+def pair_source(ctx, repo, pid):
+    """CANDIDATES: the pair loop of the pairwise matrices visits ALL pairs of cells.  Where the pairs come from a method
+    (`for pair in self._candidate_pairs()`), every implementation of that method in the cell-model classes is examined: a
+    nearest-centres / distance pre-filter is not the Voronoi neighbour criterion (a cell can share a face with a cell that is not
+    among its k closest centres on an irregular grid), so neighbours are silently lost."""
+    m = repo.module(VO)
+    base = repo.cls(VO, "AbstractVoronoi")
+    fi = base.methods.get("_calculate_N_N_array")
+    ctx.instance("CANDIDATES")
+    if fi is None:
+        ctx.inconclusive("CANDIDATES", f"{pid}.pair_source", "anchor vanished: AbstractVoronoi._calculate_N_N_array", m.relpath)
+        return
+    loops = [n for n in fi.node.body if isinstance(n, ast.For)]
+    if not loops:
+        ctx.inconclusive("CANDIDATES", f"{pid}.pair_source", "pair loop not found", fi.where)
+        return
+    it = loops[0].iter
+    if not (isinstance(it, ast.Call) and isinstance(it.func, ast.Attribute) and isinstance(it.func.value, ast.Name) and it.func.value.id == "self"):
+        ctx.ok("CANDIDATES", f"{pid}.pair_source", "the pair loop iterates over an expression of the routine itself (judged by the MIRROR rule)", fi.where,
+               src(it)[:120])
+        return
+    mname = it.func.attr
+    impls = [(c, c.methods[mname]) for c in m.classes.values() if mname in c.methods]
+    FILTERS = ("cdist", "KDTree", "cKDTree", "argsort", "argpartition", "k_argmin", "nsmallest", "query", "nearest")
+    bad, unk = [], []
+    for c, f in impls:
+        ctx.analysed(f)
+        txt = src(f.node)
+        used = [w for w in FILTERS if w in txt]
+        rets = [r for r in ast.walk(f.node) if isinstance(r, ast.Return) and r.value is not None]
+        all_pairs = bool(rets) and all(isinstance(r.value, ast.Call) and src(r.value.func).split(".")[-1] == "combinations" for r in rets)
+        if used:
+            bad.append((c, f, used))
+        elif not all_pairs:
+            unk.append((c, f))
+    for c, f, used in bad:
+        ctx.violate("CANDIDATES", f"{pid}.pair_source", f"{c.name}.{mname} restricts the pairs that are tested for a shared border to candidates "
+                    f"chosen by centre distance ({', '.join(used)}): a Voronoi neighbour outside the candidate list is dropped from all three "
+                    "matrices (and a one-sided candidate list makes the folded matrices asymmetric)", f.where, mname,
+                    witness="nearest-centres pre-filter is not the neighbour criterion |shared vertices| >= dim-1 over ALL pairs")
+    for c, f in unk:
+        ctx.inconclusive("CANDIDATES", f"{pid}.pair_source", f"{c.name}.{mname}: source of the cell pairs not recognised", f.where)
+    if not bad and not unk:
+        ctx.ok("CANDIDATES", f"{pid}.pair_source", f"every implementation of {mname} ({len(impls)}) returns all combinations of two cells", fi.where)
